@@ -135,6 +135,11 @@ def FCH(s, n, x):
     return _FCH(*s.cs, s.arr("F:_name"), n, x)
 
 
+def FCI(s, n, x):
+    """ghost witness: index of the first child of n named x (meaningful when there is one)"""
+    return _FCI(*s.cs, s.arr("F:_name"), n, _sx(x))
+
+
 def fch_def(s, n, x):
     x = _sx(x)
     j = z3.Int("fh_j")
